@@ -23,6 +23,8 @@ pub struct Flags {
     pub shuffle: u64,
     /// C18: enumerate panic injection points
     pub faults: bool,
+    /// execute only (for runs under Miri, where the interpreter is the judge): no observations are serialised
+    pub light: bool,
 }
 
 /// output that rotates to a new file at test boundaries (`<prefix>.<n>.ndjson`)
@@ -31,6 +33,7 @@ pub struct ShardWriter {
     per_shard: u64,
     n_in_shard: u64,
     pub shard: u64,
+    pub mute: bool,
     w: Box<dyn Write>,
 }
 impl ShardWriter {
@@ -39,9 +42,13 @@ impl ShardWriter {
             Some(p) => Box::new(std::io::BufWriter::with_capacity(1 << 20, std::fs::File::create(format!("{p}.0.ndjson")).expect("create shard"))),
             None => Box::new(std::io::BufWriter::with_capacity(1 << 20, std::io::stdout())),
         };
-        ShardWriter { prefix, per_shard, n_in_shard: 0, shard: 0, w }
+        ShardWriter { prefix, per_shard, n_in_shard: 0, shard: 0, mute: false, w }
     }
     pub fn line(&mut self, v: &Value) {
+        if self.mute {
+            self.n_in_shard += 1;
+            return;
+        }
         writeln!(self.w, "{}", v).unwrap();
         self.n_in_shard += 1;
     }
@@ -83,6 +90,13 @@ fn toks_json(es: &[(u64, u64, u64, u64)]) -> Value {
 
 /// full observation of an instance after a call returned
 pub fn observe<K: KeyT, S: Sut<K>>(c: &S, uni: &[u64], fl: &Flags, ids: &mut AddrIds) -> Value {
+    if fl.light {
+        // touch everything an observation touches, serialise nothing
+        let n: usize = c.parts().iter().map(|p| p.1.len()).sum();
+        let a = c.audits().len();
+        let k = uni.iter().filter(|&&k| c.c_contains(k) && c.c_peek(k).is_some()).count();
+        return json!({"light": n + a + k + c.c_len() + c.c_cap() + c.c_empty() as usize, "empty": c.c_empty()});
+    }
     let mut m = Map::new();
     let parts = c.parts();
     for (name, es) in &parts {
@@ -577,6 +591,7 @@ pub fn run_driver<K: KeyT, S: Sut<K>>(
     fl: Flags,
     random: Option<(usize, usize, u64)>,
     max_states: Option<u64>,
+    skip: (u64, u64),
     dump_hists: Option<String>,
     input: &mut dyn BufRead,
     out: &mut ShardWriter,
@@ -584,6 +599,7 @@ pub fn run_driver<K: KeyT, S: Sut<K>>(
     let mut r: Runner<K, S> = Runner::new(cfg, env, nkeys, fl, out);
     let mut ops: Vec<Value> = vec![];
     let mut line = String::new();
+    let mut nstate = 0u64;
     loop {
         line.clear();
         if input.read_line(&mut line).unwrap() == 0 {
@@ -595,6 +611,11 @@ pub fn run_driver<K: KeyT, S: Sut<K>>(
             // deterministic order
             ops.sort_by_key(|o| o.to_string());
         } else if let Some(v) = tlc_payload(l, "STATE") {
+            nstate += 1;
+            // every `skip.1`-th state starting at offset `skip.0` (sharding of slow runs)
+            if skip.1 > 1 && nstate % skip.1 != skip.0 % skip.1 {
+                continue;
+            }
             if let Some(m) = max_states {
                 if r.stats.states >= m {
                     continue;
